@@ -183,7 +183,7 @@ def run_family(run, label, queries, recsA, recsB='R_none', maxA=2, maxB=0, hdrmo
     opts = dict(opts or {})
     opts.setdefault('seed', run.seed)
     d = tlcrun.new_scratch('eng')
-    cfg = engine_cfg(os.path.join(d, label + '.cfg'), queries if not simulate else 'Q_C13', recsA, recsB, maxA, maxB, hdrmodes, breakpoints, invariants=invariants, next_='SimNext' if simulate else None)
+    cfg = engine_cfg(os.path.join(d, label + '.cfg'), queries if not simulate else 'Q_C13', recsA, recsB, maxA, maxB, hdrmodes, breakpoints, invariants=invariants, next_=(opts.get('sim_next') or 'SimNext') if simulate else None)
     rp = Replayer(run, opts)
     keep = {}
 
